@@ -370,6 +370,12 @@ class AbsInterp:
         if isinstance(e, ast.Constant):
             return ({FRESH}, {"const:%r" % (e.value,)})
         if isinstance(e, ast.IfExp):
+            at = self._atom(e.test)
+            if at is not None:
+                neg = at[0] == "~"
+                known = state.get(at[1] if neg else at)
+                if known is not None:
+                    return self.value(e.body if (known != neg) else e.orelse, state)
             a = self.value(e.body, state)
             b = self.value(e.orelse, state)
             return (a[0] | b[0], a[1] | b[1])
@@ -449,6 +455,8 @@ class AbsInterp:
         d = dotted(e)
         if d is None:
             return ({UNKNOWN}, set())
+        if state.get(("isnone", d)) is True:
+            return ({FRESH}, {"const:None"})    # in this world the variable is None: nothing to share
         v = state.get(("val", d))
         if v is not None:
             return (set(v[0]), set(v[1]))
